@@ -54,7 +54,7 @@ def exe_outputs(tool, src_path, scratch):
                 outs = []
                 if tool == 'x':
                     xc = toolchain.tool('xcmp')
-                    for extra in (['-S'], ['--tree']):
+                    for extra in (['-S'], ['--tree'], ['--memory-info', '-S']):
                         r = subprocess.run(pre + [xc, src_path] + extra, stdout=subprocess.PIPE, stderr=subprocess.PIPE, env=env, cwd=d, timeout=60)
                         outs.append((r.returncode, r.stdout, r.stderr))
                     r = subprocess.run(pre + [xc, src_path, '-o', 'o.bin'], stdout=subprocess.PIPE, stderr=subprocess.PIPE, env=env, cwd=d, timeout=60)
@@ -88,7 +88,7 @@ def check(tool, text, scratch, with_exe):
         return 'fail', 'in-process: %s differs between runs of the same source (accepted=%s)' % (o['what'], o['accepted']), o
     if with_exe:
         res = exe_outputs(tool, sp, scratch)
-        names = ['-S listing', '--tree', 'binary'] if tool == 'x' else ['--instrs listing', 'binary']
+        names = ['-S listing', '--tree', '--memory-info report', 'binary'] if tool == 'x' else ['--instrs listing', 'binary']
         for cfg, outs in res[1:]:
             for nme, a, b in zip(names, outs, res[0][1]):
                 if a != b:
